@@ -34,10 +34,11 @@
 (*     lists neither it nor the wildcard): flags SHOULD be set: "keep" or   *)
 (*     "drop".  STORE is held to the property: exactly the named PERMITTED *)
 (*     flags are replaced / added / removed.                               *)
-(* The constants LatOor, LatRec and AppendKw say which resolutions of L1,  *)
-(* L2 and L3 are enabled, so that the full nondeterministic model (graph,  *)
-(* all resolutions) and the deterministic sub-model a given server         *)
-(* exhibits (simulation) are the same text.                                *)
+(* The constants OorLenient, OorStrict, RecLenient, RecStrict (the command *)
+(* kinds for which that resolution of L1 / L2 is enabled) and AppendKw     *)
+(* (L3) select the resolutions, so that the full nondeterministic model    *)
+(* (graph: everything enabled) and the sub-model a given server exhibits   *)
+(* (simulation) are the same text.                                         *)
 (*                                                                         *)
 (* A sequence set is a sequence of elements; an element is <<x>> (one      *)
 (* number) or <<x, y>> (the range x:y); the number 0 stands for the star.  *)
@@ -47,8 +48,10 @@ EXTENDS Naturals, Sequences, FiniteSets, TLC
 
 CONSTANTS
   KwPermitted,  \* BOOLEAN: PERMANENTFLAGS of both mailboxes admits the keyword "K"
-  LatOor,       \* subset of {"lenient", "strict"}        (L1)
-  LatRec,       \* subset of {"lenient", "strict"}        (L2)
+  OorLenient,   \* L1: command kinds that may go on with the numbers that exist
+  OorStrict,    \* L1: command kinds that may refuse
+  RecLenient,   \* L2: command kinds that may ignore \Recent in a flag list
+  RecStrict,    \* L2: command kinds that may refuse it
   AppendKw,     \* subset of {"keep", "drop"}             (L3)
   Inits,        \* subset of {"std", "empty"}: initial contents of INBOX
   MaxCmds,      \* programs of at most this many commands
@@ -163,15 +166,15 @@ Turn(k) == /\ (TwoLevel => turn = k)
 \* Refusal is allowed if the strict resolution of one of them is enabled;
 \* going on requires the lenient resolution of all of them.
 Points(oor, rec) == (IF oor THEN {"oor"} ELSE {}) \cup (IF rec THEN {"rec"} ELSE {})
-StrictOK(why)  == ("oor" \in why /\ "strict" \in LatOor) \/ ("rec" \in why /\ "strict" \in LatRec)
-Lenient(why)   == ("oor" \in why => "lenient" \in LatOor) /\ ("rec" \in why => "lenient" \in LatRec)
+StrictOK(cmd, why) == ("oor" \in why /\ cmd \in OorStrict) \/ ("rec" \in why /\ cmd \in RecStrict)
+Lenient(cmd, why)  == ("oor" \in why => cmd \in OorLenient) /\ ("rec" \in why => cmd \in RecLenient)
 \* what the step tells about the server: which point was resolved how (a
 \* refusal with both points present does not say which one was refused)
 Ch(why) == {<<p, "lenient">> : p \in why}
 ChStrict(why) == IF Cardinality(why) = 1 THEN {<<p, "strict">> : p \in why} ELSE {<<"any", "strict">>}
 
 Refused(cmd, why) ==
-  /\ StrictOK(why)
+  /\ StrictOK(cmd, why)
   /\ last' = [NoRes EXCEPT !.cmd = cmd, !.cond = "REFUSED", !.choice = ChStrict(why)]
   /\ UNCHANGED <<mb, nextuid, nextcid, sel>>
 
@@ -188,7 +191,7 @@ Store(um, s, op, F, silent) ==
          A  == Addr(s, um, View, nextuid[sel])
          G  == (F \ {"R"}) \cap Permitted
          w2 == WStore(W, sel, A, op, G)
-     IN \/ /\ Lenient(why)
+     IN \/ /\ Lenient("store", why)
            /\ SetW(w2) /\ UNCHANGED <<nextcid, sel>>
            /\ last' = [NoRes EXCEPT !.cmd = "store", !.addr = A,
                          !.fetch = IF silent THEN {} ELSE FetchOf(w2.mb[sel], A),
@@ -201,7 +204,7 @@ Fetch(um, s, seen) ==
   /\ LET why == Points(~um /\ OutOfRange(s, View), FALSE)
          A  == Addr(s, um, View, nextuid[sel])
          w2 == IF seen THEN WStore(W, sel, A, "add", {"S"}) ELSE W
-     IN \/ /\ Lenient(why)
+     IN \/ /\ Lenient("fetch", why)
            /\ SetW(w2) /\ UNCHANGED <<nextcid, sel>>
            /\ last' = [NoRes EXCEPT !.cmd = "fetch", !.addr = A,
                          !.fetch = FetchOf(w2.mb[sel], A), !.choice = Ch(why)]
@@ -227,7 +230,7 @@ Copy(um, s, dest) ==
   /\ Turn("copy") /\ Count /\ sel # "none"
   /\ LET why == Points(~um /\ OutOfRange(s, View), FALSE)
          A == Addr(s, um, View, nextuid[sel])
-     IN \/ /\ Lenient(why)
+     IN \/ /\ Lenient("copy", why)
            /\ nextuid[dest] + Cardinality(A) - 1 <= MaxUid
            /\ SetW(WCopy(W, sel, A, dest)) /\ UNCHANGED <<nextcid, sel>>
            /\ last' = [NoRes EXCEPT !.cmd = "copy", !.addr = A, !.dest = dest,
@@ -241,7 +244,7 @@ Move(um, s, dest) ==
   /\ (Profile = "full" /\ dest = sel) => s \in SelfMoveShapes
   /\ LET why == Points(~um /\ OutOfRange(s, View), FALSE)
          A == Addr(s, um, View, nextuid[sel])
-     IN \/ /\ Lenient(why)
+     IN \/ /\ Lenient("move", why)
            /\ nextuid[dest] + Cardinality(A) - 1 <= MaxUid
            /\ SetW(WMove(W, sel, A, dest)) /\ UNCHANGED <<nextcid, sel>>
            /\ last' = [NoRes EXCEPT !.cmd = "move", !.addr = A, !.dest = dest,
@@ -256,7 +259,7 @@ AppendMsg(dest, F, d) ==
   /\ LET recent == "R" \in F
          unperm == "K" \in F /\ ~KwPermitted
          u == nextuid[dest]
-     IN \/ /\ Lenient(Points(FALSE, recent))
+     IN \/ /\ Lenient("append", Points(FALSE, recent))
            /\ \E kw \in (IF unperm THEN AppendKw ELSE {"na"}) :
                 LET G == ((F \ {"R"}) \cap Permitted) \cup (IF kw = "keep" THEN {"K"} ELSE {})
                 IN /\ mb' = [mb EXCEPT ![dest] =
